@@ -21,6 +21,7 @@ Clause → theorem
   the hierarchy (conditional_on[i] < i) is necessary              chain_refuses_non_hierarchy
   exactly n_points points                                         contour_row_count, circle_row_count
   2-D: unit circle, first point on the positive first axis        circle_unit, circle_first_point
+  2-D: the n equally spaced directions are pairwise distinct      circle_points_distinct
   2-D IFORM: largest first variable = first point = Q₀(Φ(β))      iform_max_first_variable
   distinct directions, n_dim ≥ 3 (NSphere)                        observed per run (partial)
 -/
@@ -28,6 +29,8 @@ import VirVerif.Lemmas.Hier
 import Mathlib.Algebra.Order.Field.Basic
 import Mathlib.Algebra.BigOperators.Group.List.Basic
 import Mathlib.Analysis.SpecialFunctions.Trigonometric.Basic
+import Mathlib.Analysis.SpecialFunctions.Trigonometric.Angle
+import Mathlib.Tactic.FieldSimp
 import Mathlib.Tactic.Ring
 import Mathlib.Tactic.Linarith
 
@@ -143,6 +146,35 @@ theorem circle_row_count {β : Type} (cos sin : β → β) (angles : List β) :
 theorem circle_first_point (rest : List ℝ) :
     (circleRows Real.cos Real.sin (0 :: rest)).head? = some [1, 0] := by
   simp [circleRows]
+
+/-- **distinct directions (2-D)**: the `n` directions `(cos(2πk/n), sin(2πk/n))`, `k < n`, at the
+equally spaced angles of the 2-D circle are pairwise distinct. -/
+theorem circle_points_distinct (n : ℕ) (hn : 0 < n) (i j : ℕ) (hi : i < n) (hj : j < n)
+    (hc : Real.cos (2 * Real.pi * i / n) = Real.cos (2 * Real.pi * j / n))
+    (hs : Real.sin (2 * Real.pi * i / n) = Real.sin (2 * Real.pi * j / n)) : i = j := by
+  have h := Real.Angle.cos_sin_inj hc hs
+  rw [Real.Angle.angle_eq_iff_two_pi_dvd_sub] at h
+  obtain ⟨k, hk⟩ := h
+  have hnpos : (0 : ℝ) < n := by exact_mod_cast hn
+  have hpi := Real.pi_pos
+  have h2 : ((i : ℝ) - j) = k * n := by
+    have h1 : 2 * Real.pi * ((i : ℝ) - j) / n = 2 * Real.pi * k := by
+      rw [← hk]; ring
+    field_simp at h1
+    rw [h1]; ring
+  have h3 : ((i : ℤ) - j) = k * n := by exact_mod_cast h2
+  have hk0 : k = 0 := by
+    by_contra hne
+    have : (n : ℤ) ≤ |(i : ℤ) - j| := by
+      rw [h3, abs_mul]
+      have : (1 : ℤ) ≤ |k| := Int.one_le_abs hne
+      have hn' : |(n : ℤ)| = n := abs_of_nonneg (by positivity)
+      rw [hn']; nlinarith
+    have : |(i : ℤ) - j| < n := by
+      rw [abs_lt]; constructor <;> omega
+    omega
+  rw [hk0] at h3
+  omega
 
 /-- **2-D IFORM: the largest first-variable value is attained at the first point and equals
 `Q₀(Φ(β))`** (with `Φ(β) = 1-α` this is the marginal (1-α)-quantile): for `β ≥ 0` and
